@@ -245,15 +245,21 @@ StepD(e) ==
 (* Real fetcher goroutines, peers answering requests, an app drawing its own verdicts: the
    lines are in the order in which they were logged (one mutex), which is the real order
    only per goroutine.  Rules used (each one can only miss, never raise a false alarm):
-   * the applier's lines (Provider, Offer, Apply, Info, End) are in program order, and the
-     handling of a verdict (Discard, RejectPeer, DiscardSender, Reject...) is complete when
-     its next line is logged: G.settled := G.rej at every applier line;
-   * a fetcher's Request follows its own Fetch line; a request to p is judged against the
-     rejections that were settled when that fetcher logged its Fetch (before GetPeer);
+   * the applier's lines (Provider, Offer, Apply, Info, End) are in program order.  A verdict
+     line is logged when the app is CALLED; the rejection it carries takes effect later, when
+     applyChunks / SyncAny execute RejectPeer, DiscardSender, Reject ...  That handling is
+     complete when the applier's NEXT line is logged.  So at every applier line
+     G.settled := the rejections of all EARLIER lines (never those of the line itself);
+   * a fetcher's Request follows its own Fetch line, and GetPeer (the choice of the peer) is
+     between the two.  A request to p is judged against (a) the rejections that were settled
+     when that fetcher logged its Fetch, and (b) the pool's own peer blacklist as the harness
+     read it under the pool mutex at that Fetch (e.bl): both are facts that held before the
+     choice was made; a choice made before the rejection took effect is never flagged;
    * a chunk instance is "sent" before AddChunk is called and "added/ignored" after it
      returned; instances in flight at a refetch verdict make the refetch check skip.     *)
 Applier(e) == e.ev \in {"Provider", "Offer", "Apply", "Info", "End"}
-Settle(g) == [g EXCEPT !.settled = g.rej]
+\* G (unprimed) is the ghost BEFORE the current line: its rejections are handled by now
+Settle(g) == [g EXCEPT !.settled = G.rej]
 
 FOffer(e) ==
   LET g0 == IF G.retry THEN G ELSE [G EXCEPT !.must = {}, !.usedb = {}]
@@ -303,11 +309,15 @@ StepF(e) ==
        [] e.ev = "Info"  -> G' = Settle([G EXCEPT !.verified = InfoVerifies(e.s, e.ans)]) /\ UNCHANGED viol
        [] e.ev = "End"   -> FEnd(e)
        [] e.ev = "Fetch" ->
-            /\ G' = [G EXCEPT !.fsettled = [g \in DOMAIN @ \cup {e.g} |-> IF g = e.g THEN G.settled ELSE @[g]]]
+            /\ G' = [G EXCEPT !.fsettled = [g \in DOMAIN @ \cup {e.g} |->
+                                              IF g = e.g THEN [G.settled EXCEPT !.snap = SeqSet(e.bl)] ELSE @[g]]]
             /\ UNCHANGED viol
        [] e.ev = "Request" ->
             /\ viol' = viol
                  \cup FailIf(e.g \in DOMAIN G.fsettled /\ e.p \in G.fsettled[e.g].peer, V("NeverReused", "ask_rejected_peer"))
+                 \* (the .snap field of fsettled[g] carries the pool's peer blacklist observed at the Fetch)
+                 \cup FailIf(e.g \in DOMAIN G.fsettled /\ e.p \notin G.fsettled[e.g].peer /\ e.p \in G.fsettled[e.g].snap,
+                             V("NeverReused", "ask_blacklisted_peer"))
                  \cup FailIf(e.g \in DOMAIN G.fsettled /\ e.f \in G.fsettled[e.g].fmt, V("NeverReused", "ask_rejected_format"))
             /\ UNCHANGED G
        [] e.ev = "ChunkSend" ->
